@@ -937,12 +937,65 @@ class Engine:
             return VArr([x] * n)
         if k == "closure":
             caps = [self.operand(st, frame, body, o) for _, o in a["fields"]]
+            if not a["name"].startswith(("{coroutine@", "{async")):
+                caps = self._complete_closure_captures(st, frame, body, rv, caps)
             if a["name"].startswith(("{coroutine@", "{async")):
                 return VCoroutine(a["name"], body.name, caps, bv(0, 32), {})
             return VClosure(a["name"], caps)
         if k == "adt":
             return self.adt_aggregate(st, frame, body, rv, dest_ty)
         raise SymError(f"unsupported rvalue kind {k}")
+
+    def _complete_closure_captures(self, st, frame, body, rv, caps):
+        """`-Zunpretty=mir` prints a closure aggregate as `{closure@..} { name: op, .. }` keyed by the captured VARIABLE's name, so two disjoint
+        captures of one variable (`x.a` and `x.b`) are printed as ONE field.  The closure body still addresses every capture by index.
+        Recover the unprinted operands: they are the references computed just before the aggregate into locals that nothing else uses, and
+        their types must match the body's upvar types one to one.  Anything ambiguous fails closed."""
+        try:
+            fname = self.closure_fn(rv.a["name"])
+        except SymError:
+            return caps
+        kind, i, j = self.crate.items[fname][0]
+        want = {}
+        for line in self.crate.lines[i : j + 1]:
+            for mm in re.finditer(r"\(\(?\*?_1\)?\.(\d+): ([^()]*(?:\([^()]*\)[^()]*)*)\)", line):
+                want[int(mm.group(1))] = mm.group(2).strip()
+        n = (max(want) + 1) if want else 0
+        if n <= len(caps):
+            return caps
+        # locate the aggregate statement and the candidate temporaries defined before it in the same block
+        text = "\n".join(self.crate.lines[self.crate.items[body.name][0][1] : self.crate.items[body.name][0][2] + 1])
+        for bbname in body.blocks:
+            pb = mir.parsed_block(body, bbname)
+            for si, stmt in enumerate(pb.stmts):
+                if stmt.rv is rv:
+                    printed = {}
+                    for ci_, (_, o) in enumerate(rv.a["fields"]):
+                        pl = getattr(o, "place", None)
+                        if pl is None or pl.proj:
+                            raise SymError(f"closure {rv.a['name']}: hidden captures next to a non-local operand")
+                        printed[pl.local] = caps[ci_]
+                    seq = []  # (local, value or None) in definition order
+                    for prev in pb.stmts[:si]:
+                        if prev.kind != "assign" or prev.place is None or prev.place.proj:
+                            continue
+                        loc = prev.place.local
+                        if loc in printed:
+                            seq.append((loc, printed[loc]))
+                            continue
+                        reads = len(re.findall(r"(move|copy) _%d(?![\w])|\(\*_%d\)|&(mut )?_%d(?![\w])" % (loc, loc, loc), text))
+                        if reads == 0:
+                            seq.append((loc, None))
+                    if len([1 for l, _ in seq if l in printed]) != len(printed) or len(seq) != n:
+                        raise SymError(f"closure {rv.a['name']} captures {n} values but the MIR text shows {len(caps)}; {len(seq)} candidate operands found")
+                    out = []
+                    for idx, (loc, val) in enumerate(seq):
+                        if idx in want and not _same_ty(body.locals.get(loc), want[idx]):
+                            raise SymError(f"closure {rv.a['name']}: recovered capture #{idx} has type {body.locals.get(loc)} but the body expects {want[idx]}")
+                        out.append(val if val is not None else self.read_place(st, frame, body, mir.parse_place("_%d" % loc)))
+                    self.summaries_used["closure captures hidden by the MIR printer recovered from the preceding temporaries"] = 1
+                    return out
+        raise SymError(f"closure {rv.a['name']} captures {n} values but the MIR text shows {len(caps)}")
 
     def discr_value(self, v, w):
         ci = as_int(v.idx)
@@ -1464,6 +1517,11 @@ class Engine:
         if r is None:
             raise SymError("closure diverges: " + fname)
         return r
+
+
+def _same_ty(a, b):
+    norm = lambda t: re.sub(r"\b(dht::|crate::)", "", (t or "").replace(" ", ""))  # noqa: E731
+    return a is not None and b is not None and norm(a) == norm(b)
 
 
 def mul_no_overflow(l, r, signed):
